@@ -135,3 +135,13 @@ pub assume_specification<T: PartialEq>[ <[T]>::contains ](s: &[T], x: &T) -> (r:
 // `i128::checked_neg` (vstd specifies checked_add/sub/mul/div/rem but not checked_neg)
 pub assume_specification[ i128::checked_neg ](a: i128) -> (r: Option<i128>)
     ensures r == (if a == i128::MIN { None::<i128> } else { Some((-a) as i128) });
+
+// R10: `x as f64` on an i128 (exec int->float casts have no spec in Verus): deterministic function of the operand
+#[verifier::external_body]
+pub fn cast_i128_as_f64(x: i128) -> (r: f64) ensures r == i128_to_f64(x) { x as f64 }
+
+// `Result<&T, E>::cloned` (vstd specifies Option::cloned only)
+pub assume_specification<T: Clone, E>[ core::result::Result::<&T, E>::cloned ](r: core::result::Result<&T, E>) -> (res: core::result::Result<T, E>)
+    ensures
+        r is Ok ==> res is Ok && call_ensures(T::clone, (r->Ok_0,), res->Ok_0),
+        r is Err ==> res is Err && res->Err_0 == r->Err_0;
